@@ -186,7 +186,7 @@ func verifServe(req *verifReq) (resp verifResp) {
 			return
 		}
 		var p program
-		resp.Bool = p.isGenerated(f)
+		resp.Bool = verifIsGenerated(&p, "x.go", f)
 	default:
 		resp.Err = "unknown op"
 	}
